@@ -34,6 +34,11 @@ name,suite,rw,rwo,res=sys.argv[1:6]
 p=f"/verif/seeded/{name}/meta.json"
 try: agent=json.load(open(f"/verif/seeded/{name}/meta.agent.json"))
 except Exception: agent={}
+try: old=json.load(open(p)).get("checks_run",[])
+except Exception: old=[]
+new=json.loads(res)
+merged={c["check"]:c for c in old}; merged.update({c["check"]:c for c in new})
+res=json.dumps(list(merged.values()))
 meta={"property":agent.get("property",name[:3]),"summary":agent.get("summary"),"needs":agent.get("needs"),
       "why_tests_pass":agent.get("why_tests_pass"),"files":agent.get("files"),
       "verified":{"suite_with_change":suite,"demo_exit_with_change":int(rw),"demo_exit_without_change":int(rwo)},
